@@ -208,11 +208,15 @@ def gen_signals(rng):
     out = ["def 0 1", "run 0"]
     n = rng.randint(2, 5)
     out.append("top acts %d" % n); out += ["spawn"] * n
-    nsig = 0
+    nsig = 0; nsys = 0
     parents = Parents()
     for _ in range(rng.randint(4, 14)):
         x = rng.random()
-        if x < 0.22 or nsig == 0: out.append("top sigprepare e%d" % rng.randrange(n)); nsig += 1
+        if x < 0.06:
+            # a ref-counted system command (`spawn_rc_system_command`): the harness recognises this pair of operations
+            out += ["top acts 1", "spawnsys 0", "top sigprepare s%d" % nsys]; nsys += 1; nsig += 1
+        elif x < 0.09 and nsys: out += ["top acts 1", "run s%d" % rng.randrange(nsys)]
+        elif x < 0.22 or nsig == 0: out.append("top sigprepare e%d" % rng.randrange(n)); nsig += 1
         elif x < 0.40: out.append("top sigclone a%d" % rng.randrange(nsig))
         elif x < 0.62: out.append("top sigdrop a%d" % rng.randrange(nsig))
         elif x < 0.70: out.append("top sigdroprace a%d" % rng.randrange(nsig))
